@@ -46,8 +46,9 @@ def afterEnq (s : BSt) (a : Nat) (st : Stmt) (cont : Nat) : BSt × String :=
   | c, _ => (s, obsLog st c (some true) st.size)
 
 /-- the body of `log_statement` after the timestamp was taken: register, reserve, write or drop/block.
-    `first`: this is the first attempt of the call (the failure counter is bumped once per blocked call). -/
-def enqFlow (s : BSt) (a : Nat) (st : Stmt) (cont : Nat) (first : Bool) : BSt × String :=
+    `first`: this is the first attempt of the call (the failure counter is bumped once per blocked call);
+    `initial`: the observation belongs to the line that started the call (it then carries the statement id). -/
+def enqFlow (s : BSt) (a : Nat) (st : Stmt) (cont : Nat) (first : Bool) (initial : Bool := first) : BSt × String :=
   let (s1, ci) := ensureCtx s a
   let (s2, ok) := tryEnq s1 ci st
   if ok then afterEnq (s2.setActor a (fun x => { x with pend := .none })) a st cont
@@ -62,7 +63,7 @@ def enqFlow (s : BSt) (a : Nat) (st : Stmt) (cont : Nat) (first : Bool) : BSt ×
     else
       let s3 := if first then bump s2 else s2
       (s3.setActor a (fun x => { x with pend := .retry st cont }),
-       if first ∧ (cont = 0 ∨ cont = 5) then s!"id={st.id} parked:sleep" else "parked:sleep")
+       if initial ∧ (cont = 0 ∨ cont = 5) then s!"id={st.id} parked:sleep" else "parked:sleep")
 
 def stmtSize (c : Cfg) (k : Kind) (id len : Nat) (dyn : Bool) (gid : Nat) : Nat :=
   match k with
@@ -87,9 +88,9 @@ def frontCall (s : BSt) (a : Nat) (lgi : Nat) (kind : Kind) (lvl len cont : Nat)
 /-- `R a` -/
 def resume (s : BSt) (a : Nat) : BSt × String :=
   match ((s.actor a).map (·.pend) : Option Pend) with
-  | some (Pend.stall st cont) => enqFlow s a st cont true
+  | some (Pend.stall st cont) => enqFlow s a st cont true false
   | some (Pend.retry st cont) =>
-      if s.cfg.dropping then enqFlow s a { st with ts := s.now } cont true   -- a fresh `log_statement` call
+      if s.cfg.dropping then enqFlow s a { st with ts := s.now } cont true false  -- a fresh `log_statement` call
       else enqFlow s a st cont false
   | some (Pend.flag f) =>
       if s.flags.contains f then (s.setActor a (fun x => { x with pend := .none }), "done")
@@ -267,6 +268,15 @@ def processEvent (s : BSt) (st : Stmt) : BSt × Option String × Option Nat :=
   | .flush f => (flushSinks s, none, some f)
   | .removal _ => (s, none, none)
 
+/-- `_check_failure_counter` -/
+def checkFailures (s : BSt) : BSt :=
+  s.cache.foldl (fun s i =>
+    let th := s.th i
+    if th.fail > 0 then
+      (s.setTh i (fun t => { t with fail := 0 })).emit
+        (.notify (if s.cfg.dropping then s!"n:dropped:{th.fail}:a{th.actor}" else s!"n:blocked:{th.fail}:a{th.actor}"))
+    else s) s
+
 /-- `_process_lowest_timestamp_transit_event` -/
 def processLowest (s : BSt) : BSt × Bool :=
   match lowest s with
@@ -279,7 +289,10 @@ def processLowest (s : BSt) : BSt × Bool :=
       let s2 := match exc with | some m => s1.emit (.notify m) | none => s1
       let s3 := s2.setTh i (fun t => { t with buf := rest })
       match flag with
-      | some f => let s4 := cleanupContexts s3; ({ s4 with flags := f :: s4.flags }, true)
+      | some f =>
+        let s3' := if s3.cfg.reportBeforeFlushCleanup then checkFailures s3 else s3
+        let s4 := cleanupContexts s3'
+        ({ s4 with flags := f :: s4.flags }, true)
       | none => (s3, true)
 
 /-- `has_pending_events_for_caching_when_transit_event_buffer_empty` -/
@@ -291,15 +304,6 @@ def hasPending (s : BSt) : BSt × Bool :=
       let r := qEmpty acc.1.cfg (acc.1.th i).q
       (acc.1.setTh i (fun t => { t with q := r.1 }), !r.2)
     else acc) (s0, false)
-
-/-- `_check_failure_counter` -/
-def checkFailures (s : BSt) : BSt :=
-  s.cache.foldl (fun s i =>
-    let th := s.th i
-    if th.fail > 0 then
-      (s.setTh i (fun t => { t with fail := 0 })).emit
-        (.notify (if s.cfg.dropping then s!"n:dropped:{th.fail}:a{th.actor}" else s!"n:blocked:{th.fail}:a{th.actor}"))
-    else s) s
 
 /-- total transit events after reading every cached context (site 2 before each context) -/
 def populate (inj : BSt → Nat → BSt) (s : BSt) : BSt × Nat :=
